@@ -209,11 +209,14 @@ class GateFamily:
             gate: `cirq.Gate` instance which should be checked for containment.
         """
         if self._is_instance_gate_family:
-            return (
-                protocols.equal_up_to_global_phase(gate, self.gate)
-                if self._ignore_global_phase
-                else gate == self._gate
-            )
+            if not self._ignore_global_phase:
+                return gate == self._gate
+            try:
+                return protocols.equal_up_to_global_phase(gate, self.gate)
+            except (AttributeError, TypeError):
+                # Symbolic parameters cannot be compared approximately with numbers: such a gate
+                # belongs to the family only if it equals the family's gate.
+                return gate == self._gate
         return isinstance(gate, self.gate)  # type: ignore[arg-type]
 
     def __contains__(self, item: raw_types.Gate | raw_types.Operation) -> bool:
